@@ -802,6 +802,20 @@ def lambda_free_str(s):
 NodeK = Rec("Node", text=Str)
 
 
+def _frontend_path(rel):
+    import os
+    from pyvc import frontend
+
+    return os.path.join(frontend.REPO_ROOT, "pydsdl", rel)
+
+
+# The processor may remember the line of the attribute statement that is waiting for its doc comment (fix of finding F2,
+# C17).  The specification adapts to the tree it is run on: the clauses about that field exist iff the field exists.
+LINE_MEMO = "_attribute_line_number"
+with open(_frontend_path("_parser.py"), "r", encoding="utf8") as _f:
+    HAS_LINE_MEMO = ("self.%s" % LINE_MEMO) in _f.read()
+
+
 @class_spec(PTP)
 class _PTPSpec:
     fields = dict(
@@ -810,9 +824,15 @@ class _PTPSpec:
         _comment=Str,
         _comment_is_header=Bool,
         _strict=Bool,
+        **({LINE_MEMO: Int} if HAS_LINE_MEMO else {})
     )
-    mutable = ["_current_line_number", "_comment", "_comment_is_header"]
+    mutable = ["_current_line_number", "_comment", "_comment_is_header"] + ([LINE_MEMO] if HAS_LINE_MEMO else [])
     owns_state = True
+
+
+def MEMO(p):
+    """The remembered line of the last queued attribute statement (None on a tree without that field)."""
+    return getattr(p, LINE_MEMO) if HAS_LINE_MEMO else None
 
 
 inline_ok(PTP + ".current_line_number", why="trivial accessor (asserts the line number is positive)")
@@ -856,7 +876,7 @@ def builder_unchanged(new_b, old_b):
                *[dsb_unchanged(a, b) for a, b in zip(ns_, os_)])
 
 
-def flush_clauses(new_p, old_p, prefix="flush:", response_marker=False):
+def flush_clauses(new_p, old_p, prefix="flush:", response_marker=False, memo_kept=True):
     """What flushing the collected comment does (documented rule): a header block becomes the doc of the current
     section; otherwise the block is the doc of the pending attribute statement, which is committed with it."""
     nb, ob = B(new_p), B(old_p)
@@ -864,6 +884,7 @@ def flush_clauses(new_p, old_p, prefix="flush:", response_marker=False):
     out = {
         "comment-consumed": EQ(new_p._comment, ""),
         "line-kept": new_p._current_line_number == old_p._current_line_number,
+        "attribute-line-memo-kept": (MEMO(new_p) == MEMO(old_p)) if (HAS_LINE_MEMO and memo_kept) else True,
         "header-doc": IMPLIES(hdr, lambda: AND(EQ(SECS(nb)[len(SECS(ob)) - 1]._doc, old_p._comment))),
         "attribute-doc-kept-section-doc": IMPLIES(NOT(hdr), lambda: EQ(SECS(nb)[len(SECS(ob)) - 1]._doc, CUR(ob)._doc)),
     }
@@ -924,6 +945,8 @@ def processor_unchanged(new_p, old_p, *except_):
             cs.append(SAME(getattr(new_p, f), getattr(old_p, f)))
     if "builder" not in except_:
         cs.append(builder_unchanged(B(new_p), B(old_p)))
+    if HAS_LINE_MEMO and LINE_MEMO not in except_:  # last, so that the numbering of the other conjuncts does not depend on it
+        cs.append(SAME(MEMO(new_p), MEMO(old_p)))
     return AND(*cs)
 
 
@@ -1009,15 +1032,21 @@ def _stmt_raises():
 def _stmt_post(s, tag, T, name=None, value=None):
     out = {"exactly-this-statement-pending": pending_is(B(s.self), tag, T, name, value), "wf": WF_P(s.self),
            "calls-kept": len(_calls(B(s.self))) == len(_calls(B(s.old)))}
-    out.update(flush_clauses(s.self, s.old))
+    out.update(flush_clauses(s.self, s.old, memo_kept=False))
+    if HAS_LINE_MEMO:
+        out["line-of-this-statement-remembered"] = MEMO(s.self) == s.old._current_line_number
     return out
+
+
+def havoc_processor_stmt(s):
+    return havoc_processor(s) + ([(s.self, LINE_MEMO)] if HAS_LINE_MEMO else [])
 
 
 @contract(PTP + ".visit_statement_field", props=P)
 class _VisitField:
     params = dict(_n=NodeK, children=TupleK(ObjOf(SERIALIZABLE), Const(None), Str))
     instances = _PTP_INSTANCES
-    havoc = havoc_processor
+    havoc = havoc_processor_stmt
     raises = _stmt_raises()
 
     def pre(s):
@@ -1032,7 +1061,7 @@ class _VisitConstant:
     params = dict(_n=NodeK, children=TupleK(ObjOf(SERIALIZABLE), Const(None), Str, Const(None), Const(None), Const(None),
                                             ObjOf(ANY)))
     instances = _PTP_INSTANCES
-    havoc = havoc_processor
+    havoc = havoc_processor_stmt
     raises = _stmt_raises()
 
     def pre(s):
@@ -1046,7 +1075,7 @@ class _VisitConstant:
 class _VisitPadding:
     params = dict(_n=NodeK, children=TupleK(ObjOf(VOID_T), Const(None)))
     instances = _PTP_INSTANCES
-    havoc = havoc_processor
+    havoc = havoc_processor_stmt
     raises = _stmt_raises()
 
     def pre(s):
@@ -1088,6 +1117,7 @@ class _VisitMarker:
                "response-header-may-follow": s.self._comment_is_header,
                "comment-consumed": EQ(s.self._comment, ""),
                "line-kept": s.self._current_line_number == s.old._current_line_number,
+               "attribute-line-memo-kept": (MEMO(s.self) == MEMO(s.old)) if HAS_LINE_MEMO else True,
                "nothing-pending-afterwards": NO_PENDING(nb), "wf": WF_P(s.self),
                "calls-kept": len(_calls(nb)) == len(_calls(ob)),
                "request-header-doc": IMPLIES(s.old._comment_is_header, lambda: EQ(SECS(nb)[0]._doc, s.old._comment)),
@@ -1305,6 +1335,7 @@ def inv_clauses(p, g):
             IMPLIES(NOT(g.tag == T_PAD), lambda: EQ(pend.name, g.name)),
             IMPLIES(g.tag == T_CONST, lambda: SAME(pend.value, g.value)))),
         "open-statement-is-on-an-earlier-or-this-line": IMPLIES(g.open, lambda: AND(1 <= g.line, g.line <= 1 + g.eol)),
+        "line-of-the-open-statement-remembered": IMPLIES(g.open, lambda: MEMO(p) == g.line) if HAS_LINE_MEMO else True,
         "collected-comment-is-its-doc": IMPLIES(g.open, lambda: AND(NOT(p._comment_is_header), EQ(p._comment, g.doc))),
         "header-iff-header-window": IFF(p._comment_is_header, g.hdr_open),
         "collected-comment-is-the-header": IMPLIES(g.hdr_open, lambda: EQ(p._comment, g.hdr)),
